@@ -503,6 +503,19 @@ async def _(c):
         s.do(_sleep(5), volatile=True)
         c.mark('scope_volatile_only:s')
     c.mark('scope_volatile_only:e')
+    # a child has failed already (with the TaskCancelled of a task it awaited: the block still ends normally) when the
+    # body, resumed by an older wake-up, ends
+    async with Scope() as s:
+        victim = s.do(_sleep(5))
+        victim.cancel()
+
+        async def dies_of_it():
+            await victim
+        s.do(dies_of_it())
+        await instant
+        await instant
+        c.mark('scope_child_failed_before_exit:s')
+    c.mark('scope_child_failed_before_exit:e')
     # the block's own notification fires while the body is postponed for the last time: when the body ends, the
     # interrupt is queued already - the block still ends normally, and leaving it still yields
     g = Flag()
